@@ -258,6 +258,12 @@ class C02(Prop):
                                respawn=rng.choice([True, True, True, False]),
                                kinds=('obedient', 'slow', 'stubborn',
                                       'selfexit', 'selective'))
+        if rng.random() < 0.06:
+            # an operation that ends with an error in the middle of its work
+            # (signalling a worker fails with EPERM): the next stop finishes
+            # the job
+            s0 = rng.randrange(1, 8)
+            cfg['signal_fail'] = {str(s0): 1}
         if rng.random() < 0.15:
             # captured output: pipes and redirector registrations whose
             # descriptor numbers are reused by the next worker, possibly of
@@ -270,6 +276,13 @@ class C02(Prop):
         ops = gen.gen_history(rng, cfg, n, self.REQS, self.WEIGHTS,
                               second_req_kinds=['incr', 'decr', 'kill',
                                                 'signal', 'status', 'stop'])
+        if cfg.get('signal_fail'):
+            for op in ops:
+                if op['op'] == 'req' and op['cmd'] in ('quit', 'rm'):
+                    # (not into a shutdown, nor into a removal: half of
+                    # either cannot be taken back)
+                    op['cmd'] = 'stop'
+                    op['props'] = {}
         nw_ = len(cfg['watchers'])
         if nw_ >= 3:
             for op in ops:
